@@ -41,6 +41,8 @@
 #include <ompl/control/SimpleDirectedControlSampler.h>
 #include <ompl/control/ODESolver.h>
 #include <ompl/control/spaces/RealVectorControlSpace.h>
+#include <ompl/control/spaces/DiscreteControlSpace.h>
+#include <ompl/control/SteeredControlSampler.h>
 #include <ompl/control/planners/rrt/RRT.h>
 #include <ompl/control/planners/sst/SST.h>
 #include <ompl/control/planners/est/EST.h>
@@ -56,6 +58,7 @@
 #include <ompl/datastructures/NearestNeighborsLinear.h>
 #include <ompl/util/RandomNumbers.h>
 #include <map>
+#include <functional>
 #include <algorithm>
 
 namespace oc = ompl::control;
@@ -64,6 +67,38 @@ namespace ob = ompl::base;
 using Toks = std::vector<std::string>;
 
 // ------------------------------------------------------------------------------------------ systems
+// the control-space kind of the line being executed (set by Sys::parse; one Sys per line): controls cross the protocol as two
+// doubles; a discrete control is (value, 0)
+static bool g_disc = false;
+static inline void ctlGet(const oc::Control *c, double &a, double &b)
+{
+    if (g_disc)
+    {
+        a = c->as<oc::DiscreteControlSpace::ControlType>()->value;
+        b = 0.0;
+    }
+    else
+    {
+        const double *u = c->as<oc::RealVectorControlSpace::ControlType>()->values;
+        a = u[0];
+        b = u[1];
+    }
+}
+static inline void ctlSet(oc::Control *c, double a, double b)
+{
+    if (g_disc)
+        c->as<oc::DiscreteControlSpace::ControlType>()->value = (int)a;
+    else
+    {
+        double *u = c->as<oc::RealVectorControlSpace::ControlType>()->values;
+        u[0] = a;
+        u[1] = b;
+    }
+}
+// `dpoint`: eight headings (dyadic speeds so that C++, Lean and Python agree bit for bit), a TOTAL function of the control value
+static const double DPX[8] = {1, 0, -1, 0, 0.75, -0.75, -0.75, 0.75};
+static const double DPY[8] = {0, 1, 0, -1, 0.75, 0.75, -0.75, -0.75};
+
 struct Sys
 {
     std::string kind;
@@ -72,11 +107,30 @@ struct Sys
     double dt = 0;
     unsigned minSteps = 0, maxSteps = 0;
     ob::StateSpacePtr space;
-    std::shared_ptr<oc::RealVectorControlSpace> cspace;
+    std::shared_ptr<oc::RealVectorControlSpace> cspace;   // null for the discrete kind
+    std::shared_ptr<oc::DiscreteControlSpace> dspace;     // `dpoint`: control = one int in [clo[0], chi[0]] (clo[1] = chi[1] = 0)
+    bool disc = false;
 
     unsigned nreals() const
     {
         return (kind == "uni" || kind == "car" || kind == "ode") ? 3 : nb;
+    }
+    oc::ControlSpacePtr anyspace() const
+    {
+        return disc ? oc::ControlSpacePtr(dspace) : oc::ControlSpacePtr(cspace);
+    }
+    // the control space's CURRENT bounds as (lo0, lo1, hi0, hi1)
+    void setCBounds(double l0, double l1, double h0, double h1) const
+    {
+        if (disc)
+            dspace->setBounds((int)l0, (int)h0);
+        else
+        {
+            ob::RealVectorBounds cb(2);
+            cb.low = {l0, l1};
+            cb.high = {h0, h1};
+            cspace->setBounds(cb);
+        }
     }
 
     void parse(const Toks &t, size_t &i)
@@ -84,7 +138,9 @@ struct Sys
         if (i >= t.size())
             throw vp::ParseError("sys");
         kind = t[i++];
-        if (kind == "point" || kind == "uni" || kind == "car" || kind == "ode")
+        disc = kind == "dpoint";
+        g_disc = disc;
+        if (kind == "point" || kind == "uni" || kind == "car" || kind == "ode" || kind == "dpoint")
             nb = 2;
         else if (kind == "dint")
             nb = 4;
@@ -126,6 +182,14 @@ struct Sys
             s->setBounds(b);
             space = s;
         }
+        if (disc)
+        {
+            if (clo[0] != std::floor(clo[0]) || chi[0] != std::floor(chi[0]) || fabs(clo[0]) > 1e6 || fabs(chi[0]) > 1e6 || clo[1] != 0 ||
+                chi[1] != 0)
+                throw vp::ParseError("discrete bounds");
+            dspace = std::make_shared<oc::DiscreteControlSpace>(space, (int)clo[0], (int)chi[0]);
+            return;
+        }
         cspace = std::make_shared<oc::RealVectorControlSpace>(space, 2);
         ob::RealVectorBounds cb(2);
         cb.low = clo;
@@ -144,9 +208,20 @@ public:
     void propagate(const ob::State *state, const oc::Control *control, double duration, ob::State *result) const override
     {
         ++calls;
-        const double *u = control->as<oc::RealVectorControlSpace::ControlType>()->values;
-        const double u0 = u[0], u1 = u[1];
-        if (kind_ == "point")
+        if (hook)
+            hook();
+        double u0, u1;
+        ctlGet(control, u0, u1);
+        if (kind_ == "dpoint")
+        {
+            const int k = ((((int)u0) % 8) + 8) % 8;
+            const double *s = state->as<ob::RealVectorStateSpace::StateType>()->values;
+            const double x = s[0], y = s[1];
+            double *r = result->as<ob::RealVectorStateSpace::StateType>()->values;
+            r[0] = x + DPX[k] * duration;
+            r[1] = y + DPY[k] * duration;
+        }
+        else if (kind_ == "point")
         {
             const double *s = state->as<ob::RealVectorStateSpace::StateType>()->values;
             const double x = s[0], y = s[1];
@@ -190,6 +265,7 @@ public:
         }
     }
     mutable unsigned long calls = 0;
+    std::function<void()> hook;   // re-entrancy tests: called at the head of every propagator call
 
     // optional steering function of the first-order point (drives SteeredControlSampler through
     // allocDirectedControlSampler): the straight-line control at the largest admissible speed (control bounds [-1,1])
@@ -630,13 +706,14 @@ static std::string showSt(const Sys &sys, const ob::State *s)
 }
 static std::string showCt(const oc::Control *c)
 {
-    const double *u = c->as<oc::RealVectorControlSpace::ControlType>()->values;
-    return vp::bits(u[0]) + " " + vp::bits(u[1]);
+    double a, b;
+    ctlGet(c, a, b);
+    return vp::bits(a) + " " + vp::bits(b);
 }
 
 static std::shared_ptr<oc::SpaceInformation> makeSI(const Sys &sys, std::shared_ptr<SysPropagator> &prop)
 {
-    auto si = std::make_shared<oc::SpaceInformation>(sys.space, sys.cspace);
+    auto si = std::make_shared<oc::SpaceInformation>(sys.space, sys.anyspace());
     prop = std::make_shared<SysPropagator>(si.get(), sys.kind);
     if (sys.kind == "ode")
     {
@@ -768,8 +845,7 @@ static std::string opPwv(const Toks &t, bool whileValid)
     ob::State *state = si->allocState();
     sys.space->copyFromReals(state, st);
     oc::Control *ctl = si->allocControl();
-    ctl->as<oc::RealVectorControlSpace::ControlType>()->values[0] = ct[0];
-    ctl->as<oc::RealVectorControlSpace::ControlType>()->values[1] = ct[1];
+    ctlSet(ctl, ct[0], ct[1]);
     prop->calls = 0;
     std::string out;
     unsigned r = 0;
@@ -866,8 +942,7 @@ static std::string opPath(const Toks &t, int mode)  // 0 check, 1 interpolate, 2
         else
         {
             // append(state, control, duration): the control/duration that led to this state
-            c->as<oc::RealVectorControlSpace::ControlType>()->values[0] = C[j - 1][0];
-            c->as<oc::RealVectorControlSpace::ControlType>()->values[1] = C[j - 1][1];
+            ctlSet(c, C[j - 1][0], C[j - 1][1]);
             p.append(s, c, D[j - 1]);
         }
     }
@@ -965,8 +1040,7 @@ static std::string opPmisc(const Toks &t)
             p.append(s);
         else
         {
-            c->as<oc::RealVectorControlSpace::ControlType>()->values[0] = C[j - 1][0];
-            c->as<oc::RealVectorControlSpace::ControlType>()->values[1] = C[j - 1][1];
+            ctlSet(c, C[j - 1][0], C[j - 1][1]);
             p.append(s, c, D[j - 1]);
         }
     }
@@ -1077,6 +1151,13 @@ public:
 
 static std::string sysBounds(const oc::SpaceInformation &si)
 {
+    if (g_disc)
+    {
+        const auto *ds = si.getControlSpace()->as<oc::DiscreteControlSpace>();
+        return "cb " + vp::bits((double)ds->getLowerBound()) + " " + vp::bits(0.0) + " " + vp::bits((double)ds->getUpperBound()) + " " +
+               vp::bits(0.0) + " dt=" + vp::bits(si.getPropagationStepSize()) + " min=" + std::to_string(si.getMinControlDuration()) +
+               " max=" + std::to_string(si.getMaxControlDuration());
+    }
     const auto &cb = si.getControlSpace()->as<oc::RealVectorControlSpace>()->getBounds();
     return "cb " + vp::bits(cb.low[0]) + " " + vp::bits(cb.low[1]) + " " + vp::bits(cb.high[0]) + " " +
            vp::bits(cb.high[1]) + " dt=" + vp::bits(si.getPropagationStepSize()) + " min=" +
@@ -1135,6 +1216,8 @@ static std::string opRrt(const Toks &t, std::string &playLine)
     sys.space->setStateSamplerAllocator([&ev](const ob::StateSpace *sp) {
         return std::make_shared<RecStateSampler>(sp, sp->allocDefaultStateSampler(), &ev);
     });
+    if (sys.disc)
+        throw vp::ParseError("real-vector controls only");
     sys.cspace->setControlSamplerAllocator([&ev](const oc::ControlSpace *cs) {
         return std::make_shared<RecControlSampler>(cs, cs->allocDefaultControlSampler(), &ev);
     });
@@ -1242,6 +1325,8 @@ static std::string opRrtPlay(const Toks &t)
     // installed only now: StateSpace::setup() of a RealVector space with more than two dimensions registers a random linear
     // default projection whose setup draws 100 uniform samples from the space's sampler to infer cell sizes
     sys.space->setStateSamplerAllocator([&ds](const ob::StateSpace *sp) { return std::make_shared<ScriptStateSampler>(sp, &ds); });
+    if (sys.disc)
+        throw vp::ParseError("real-vector controls only");
     sys.cspace->setControlSamplerAllocator(
         [&ds](const oc::ControlSpace *cs) { return std::make_shared<ScriptControlSampler>(cs, &ds); });
     auto cnt = std::make_shared<vp::EvalCounter>();
@@ -1318,6 +1403,8 @@ static std::string opSst(const Toks &t, std::string &playLine)
     sys.space->setStateSamplerAllocator([&ev](const ob::StateSpace *sp) {
         return std::make_shared<RecStateSampler>(sp, sp->allocDefaultStateSampler(), &ev);
     });
+    if (sys.disc)
+        throw vp::ParseError("real-vector controls only");
     sys.cspace->setControlSamplerAllocator([&ev](const oc::ControlSpace *cs) {
         return std::make_shared<RecControlSampler>(cs, cs->allocDefaultControlSampler(), &ev);
     });
@@ -1437,6 +1524,8 @@ static std::string opEst(const Toks &t, std::string &playLine)
     si->setStateValidityChecker(std::make_shared<EnvValidity>(si, pb.env));
     si->setValidStateSamplerAllocator(
         [&ev, att](const ob::SpaceInformation *s) { return std::make_shared<RecValidSampler>(s, &ev, att); });
+    if (sys.disc)
+        throw vp::ParseError("real-vector controls only");
     sys.cspace->setControlSamplerAllocator([&ev](const oc::ControlSpace *cs) {
         return std::make_shared<RecControlSampler>(cs, cs->allocDefaultControlSampler(), &ev);
     });
@@ -1530,6 +1619,8 @@ static std::string opKpiece(const Toks &t, std::string &playLine)
     std::shared_ptr<SysPropagator> prop;
     auto si = makeSI(sys, prop);
     si->setStateValidityChecker(std::make_shared<EnvValidity>(si, pb.env));
+    if (sys.disc)
+        throw vp::ParseError("real-vector controls only");
     sys.cspace->setControlSamplerAllocator([&ev](const oc::ControlSpace *cs) {
         return std::make_shared<RecControlSampler>(cs, cs->allocDefaultControlSampler(), &ev);
     });
@@ -1632,6 +1723,8 @@ static std::string opPdst(const Toks &t, std::string &playLine)
     std::shared_ptr<SysPropagator> prop;
     auto si = makeSI(sys, prop);
     si->setStateValidityChecker(std::make_shared<EnvValidity>(si, pb.env));
+    if (sys.disc)
+        throw vp::ParseError("real-vector controls only");
     sys.cspace->setControlSamplerAllocator([&ev](const oc::ControlSpace *cs) {
         return std::make_shared<RecControlSampler>(cs, cs->allocDefaultControlSampler(), &ev);
     });
@@ -1798,10 +1891,71 @@ static std::string showOne(const Sys &sys, const ob::PlannerSolution &sol, const
     return out + " path " + showPath(sys, *p);
 }
 
-// `hist <planner> SYS ENV starts … GOAL k=<n> bias=<bits> seed=<n> ops (solve <budget> | clear)*`: a HISTORY on one planner
-// object — repeated solve() (continue planning) and clear()+solve().  One output line per `solve`: the status and EVERY
-// solution path the problem definition holds afterwards (` || ` separated), so that paths reported by a continued or a
-// re-started planner go through the same replay oracle.  `clear` = planner->clear() + pdef->clearSolutionPaths().
+// validity checker of the history runs: EnvValidity, and (re-entrancy) at every `period`-th top-level query a complete nested
+// propagateWhileValid of a fixed (state, control, 6 steps) on the SAME SpaceInformation (single-result and vector overload
+// alternating).  The answer is the environment's; a re-entrant propagateWhileValid is not disturbed by the nested call.
+class NestValidity : public EnvValidity
+{
+public:
+    NestValidity(const std::shared_ptr<oc::SpaceInformation> &si, vp::Env env, unsigned period, std::vector<double> st)
+      : EnvValidity(si, std::move(env)), csi_(si.get()), period_(period), st_(std::move(st))
+    {
+    }
+    bool isValid(const ob::State *s) const override
+    {
+        const bool ans = EnvValidity::isValid(s);
+        if (period_ == 0 || depth_ > 0 || !armed)
+            return ans;
+        if (++top_ % period_ != 0)
+            return ans;
+        ++depth_;
+        ob::State *a = csi_->allocState(), *b = csi_->allocState();
+        csi_->getStateSpace()->copyFromReals(a, st_);
+        oc::Control *c = csi_->allocControl();
+        csi_->nullControl(c);
+        if ((nested++ & 1) == 0)
+            csi_->propagateWhileValid(a, c, 6, b);
+        else
+        {
+            std::vector<ob::State *> v;
+            csi_->propagateWhileValid(a, c, 6, v, true);
+            for (auto *p : v)
+                csi_->freeState(p);
+        }
+        csi_->freeControl(c);
+        csi_->freeState(a);
+        csi_->freeState(b);
+        --depth_;
+        return ans;
+    }
+    mutable unsigned long nested = 0;
+    bool armed = false;
+
+private:
+    const oc::SpaceInformation *csi_;
+    unsigned period_;
+    std::vector<double> st_;
+    mutable unsigned long top_ = 0;
+    mutable int depth_ = 0;
+};
+
+// `hist <planner> SYS ENV starts … GOAL k=<n> bias=<bits> seed=<n> [steer=<0|1>] [nest=<n>] ops OP*`: a HISTORY on one planner
+// object.   OP ::= solve <budget>           planner->solve
+//                | clear                    planner->clear() + pdef->clearSolutionPaths()
+//                | clearsol                 pdef->clearSolutionPaths() only
+//                | cb <lo0> <lo1> <hi0> <hi1>   RealVectorControlSpace::setBounds / DiscreteControlSpace::setBounds(lo0, hi0)
+//                | mm <min> <max>           SpaceInformation::setMinMaxControlDuration
+//                | dt <bits>                SpaceInformation::setPropagationStepSize
+//                | setup                    si->setup(); planner->setup()
+// One output line per `solve`: the status and EVERY solution path the problem definition holds afterwards (` || ` separated), each
+// with the control bounds / step size / durations the space information reports AT THAT TIME, so that paths reported by a
+// continued, re-started or re-configured planner go through the same replay oracle against the CURRENT system.
+struct HistOp
+{
+    int kind;   // 0 solve, 1 clear, 2 clearsol, 3 cb, 4 mm, 5 dt, 6 setup
+    unsigned long n = 0, m = 0;
+    double v[4] = {0, 0, 0, 0};
+};
 static std::string opHist(const Toks &t)
 {
     size_t i = 1;
@@ -1813,38 +1967,68 @@ static std::string opHist(const Toks &t)
     unsigned k = needKV(t, i, "k");
     double bias = needKVbits(t, i, "bias");
     unsigned long seed = needKV(t, i, "seed");
+    unsigned steer = 0, nest = 0;
+    if (i < t.size() && t[i].rfind("steer=", 0) == 0)
+        steer = needKV(t, i, "steer");
+    if (i < t.size() && t[i].rfind("nest=", 0) == 0)
+        nest = needKV(t, i, "nest");
     expect(t, i, "ops");
-    std::vector<long> ops;   // >= 0: solve budget, -1: clear
+    std::vector<HistOp> ops;
     while (i < t.size())
     {
-        if (t[i] == "clear")
+        HistOp o;
+        const std::string w = t[i++];
+        if (w == "clear")
+            o.kind = 1;
+        else if (w == "clearsol")   // the caller clears only the problem definition's solution paths
+            o.kind = 2;
+        else if (w == "solve")
         {
-            ops.push_back(-1);
-            ++i;
-        }
-        else if (t[i] == "clearsol")   // the caller clears only the problem definition's solution paths
-        {
-            ops.push_back(-2);
-            ++i;
-        }
-        else if (t[i] == "solve")
-        {
-            ++i;
-            unsigned long b = vp::needN(t, i);
-            if (b > 5000000)
+            o.kind = 0;
+            o.n = vp::needN(t, i);
+            if (o.n > 5000000)
                 throw vp::ParseError("budget");
-            ops.push_back((long)b);
         }
+        else if (w == "cb")
+        {
+            o.kind = 3;
+            for (double &x : o.v)
+                x = vp::needF(t, i);
+            if (!(o.v[0] <= o.v[2]) || !(o.v[1] <= o.v[3]))
+                throw vp::ParseError("cb");
+            if (pb.sys.disc && (o.v[0] != std::floor(o.v[0]) || o.v[2] != std::floor(o.v[2]) || fabs(o.v[0]) > 1e6 || fabs(o.v[2]) > 1e6))
+                throw vp::ParseError("cb discrete");
+        }
+        else if (w == "mm")
+        {
+            o.kind = 4;
+            o.n = vp::needN(t, i);
+            o.m = vp::needN(t, i);
+            if (o.n < 1 || o.n > o.m || o.m > 1000)
+                throw vp::ParseError("mm");
+        }
+        else if (w == "dt")
+        {
+            o.kind = 5;
+            o.v[0] = vp::needF(t, i);
+            if (!(o.v[0] > 1e-9) || !(o.v[0] < 1e3) || pb.sys.kind == "ode")   // the ODE solver's integration step is fixed at construction
+                throw vp::ParseError("dt");
+        }
+        else if (w == "setup")
+            o.kind = 6;
         else
             throw vp::ParseError("hist op");
+        ops.push_back(o);
     }
-    if (k < 1 || k > 50 || ops.size() > 16)
+    if (k < 1 || k > 50 || ops.size() > 24 || nest > 1000000)
         throw vp::ParseError("hist args");
     ompl::RNG::setSeed(seed + 1);
     const Sys &sys = pb.sys;
     std::shared_ptr<SysPropagator> prop;
     auto si = makeSI(sys, prop);
-    si->setStateValidityChecker(std::make_shared<EnvValidity>(si, pb.env));
+    prop->steerable = steer != 0;
+    auto val = std::make_shared<NestValidity>(si, pb.env, nest, pb.starts[0]);
+    si->setStateValidityChecker(val);
     if (k > 1)
         si->setDirectedControlSamplerAllocator(
             [k](const oc::SpaceInformation *s) { return std::make_shared<oc::SimpleDirectedControlSampler>(s, k); });
@@ -1862,28 +2046,433 @@ static std::string opHist(const Toks &t)
     planner->setProblemDefinition(pdef);
     planner->setup();
     std::string out;
-    for (long op : ops)
+    for (const HistOp &op : ops)
     {
-        if (op == -2)
+        switch (op.kind)
         {
-            pdef->clearSolutionPaths();
-            continue;
-        }
-        if (op < 0)
-        {
-            planner->clear();
-            pdef->clearSolutionPaths();
-            continue;
+            case 2:
+                pdef->clearSolutionPaths();
+                continue;
+            case 1:
+                planner->clear();
+                pdef->clearSolutionPaths();
+                continue;
+            case 3:
+                sys.setCBounds(op.v[0], op.v[1], op.v[2], op.v[3]);
+                continue;
+            case 4:
+                si->setMinMaxControlDuration(op.n, op.m);
+                continue;
+            case 5:
+                si->setPropagationStepSize(op.v[0]);
+                continue;
+            case 6:
+                si->setup();
+                planner->setup();
+                continue;
+            default:
+                break;
         }
         auto cnt = std::make_shared<vp::EvalCounter>();
-        cnt->fireAt = (unsigned long)op;
+        cnt->fireAt = op.n;
+        val->armed = true;    // nested propagations only while the planner runs (not during the reporting below)
         ob::PlannerStatus st = planner->solve(vp::evalCountPtc(cnt));
-        std::string line = std::string("solve status=") + vp::statusName(st) + " nsol=" + std::to_string(pdef->getSolutionCount());
+        val->armed = false;
+        std::string line = std::string("solve status=") + vp::statusName(st) + " nsol=" + std::to_string(pdef->getSolutionCount()) +
+                           " nested=" + std::to_string(val->nested);
         for (const auto &sol : pdef->getSolutions())
             line += " || " + showOne(sys, sol, pdef->getGoal(), vp::statusName(st), *si);
         out += (out.empty() ? "" : "\n") + line;
     }
     return out.empty() ? "solve none" : out;
+}
+
+// ------------------------------------------------------------------------------------------ sampler histories (lock-step)
+// the library's own samplers with their (protected) RNG reachable: sample()/sampleStepCount() are inherited unchanged
+class RealSamplerX : public oc::RealVectorControlUniformSampler
+{
+public:
+    using oc::RealVectorControlUniformSampler::RealVectorControlUniformSampler;
+    void reseed(unsigned long s)
+    {
+        rng_.setLocalSeed(s);
+    }
+};
+class DiscSamplerX : public oc::DiscreteControlSampler
+{
+public:
+    using oc::DiscreteControlSampler::DiscreteControlSampler;
+    void reseed(unsigned long s)
+    {
+        rng_.setLocalSeed(s);
+    }
+};
+static void reseedSampler(oc::ControlSampler *cs, unsigned long s)
+{
+    if (auto *r = dynamic_cast<RealSamplerX *>(cs))
+        r->reseed(s);
+    else if (auto *d = dynamic_cast<DiscSamplerX *>(cs))
+        d->reseed(s);
+    else
+        throw vp::ParseError("sampler type");
+}
+class SimpleDirX : public oc::SimpleDirectedControlSampler
+{
+public:
+    using oc::SimpleDirectedControlSampler::SimpleDirectedControlSampler;
+    void reseed(unsigned long s)
+    {
+        reseedSampler(cs_.get(), s);
+    }
+};
+
+// `sampler (real <dim> <lo*dim> <hi*dim> | disc <lo> <hi>) lseed=<n> ops OP*`: ONE control sampler object kept across
+// reconfigurations of its control space.  OP ::= B <bounds as in the header>   setBounds
+//                                              | S | N                          sample / sampleNext(previous draw)
+//                                              | K <a> <b>                      sampleStepCount(a, b)
+//                                              | R <lseed>                      the owner drops the sampler and allocates a new one
+// Output: one token group per draw (`S <values>` / `K <n>`).  A draw depends on the bounds at draw time.
+static std::string opSampler(const Toks &t)
+{
+    size_t i = 1;
+    if (i >= t.size())
+        throw vp::ParseError("kind");
+    const bool disc = t[i] == "disc";
+    if (!disc && t[i] != "real")
+        throw vp::ParseError("kind");
+    ++i;
+    unsigned dim = 1;
+    auto space = std::make_shared<ob::RealVectorStateSpace>(1);
+    std::shared_ptr<oc::RealVectorControlSpace> rs;
+    std::shared_ptr<oc::DiscreteControlSpace> ds;
+    auto readBounds = [&](bool first) {
+        if (disc)
+        {
+            long long lo = vp::needI(t, i), hi = vp::needI(t, i);
+            if (lo > hi || lo < -1000000 || hi > 1000000)
+                throw vp::ParseError("bounds");
+            if (first)
+                ds = std::make_shared<oc::DiscreteControlSpace>(space, (int)lo, (int)hi);
+            else
+                ds->setBounds((int)lo, (int)hi);
+        }
+        else
+        {
+            ob::RealVectorBounds b(dim);
+            for (unsigned j = 0; j < dim; ++j)
+                b.low[j] = vp::needF(t, i);
+            for (unsigned j = 0; j < dim; ++j)
+                b.high[j] = vp::needF(t, i);
+            for (unsigned j = 0; j < dim; ++j)
+                if (!(b.low[j] <= b.high[j]) || !(fabs(b.low[j]) < 1e12) || !(fabs(b.high[j]) < 1e12))
+                    throw vp::ParseError("bounds");
+            if (first)
+                rs = std::make_shared<oc::RealVectorControlSpace>(space, dim);
+            rs->setBounds(b);
+        }
+    };
+    if (!disc)
+    {
+        dim = vp::needN(t, i);
+        if (dim < 1 || dim > 6)
+            throw vp::ParseError("dim");
+    }
+    readBounds(true);
+    unsigned long lseed = needKV(t, i, "lseed");
+    expect(t, i, "ops");
+    oc::ControlSpacePtr cs = disc ? oc::ControlSpacePtr(ds) : oc::ControlSpacePtr(rs);
+    cs->setControlSamplerAllocator([disc](const oc::ControlSpace *sp) -> oc::ControlSamplerPtr {
+        if (disc)
+            return std::make_shared<DiscSamplerX>(sp);
+        return std::make_shared<RealSamplerX>(sp);
+    });
+    cs->setup();
+    oc::ControlSamplerPtr smp = cs->allocControlSampler();
+    reseedSampler(smp.get(), lseed);
+    oc::Control *c = cs->allocControl(), *prev = cs->allocControl();
+    cs->nullControl(prev);
+    std::string out = "draws";
+    unsigned nops = 0;
+    try
+    {
+        while (i < t.size())
+        {
+            if (++nops > 4000)
+                throw vp::ParseError("too many ops");
+            const std::string w = t[i++];
+            if (w == "B")
+                readBounds(false);
+            else if (w == "S" || w == "N")
+            {
+                if (w == "S")
+                    smp->sample(c);
+                else
+                    smp->sampleNext(c, prev);
+                cs->copyControl(prev, c);
+                out += " S";
+                if (disc)
+                    out += " " + std::to_string(c->as<oc::DiscreteControlSpace::ControlType>()->value);
+                else
+                    for (unsigned j = 0; j < dim; ++j)
+                        out += " " + vp::bits(c->as<oc::RealVectorControlSpace::ControlType>()->values[j]);
+            }
+            else if (w == "K")
+            {
+                unsigned a = vp::needN(t, i), b = vp::needN(t, i);
+                if (a > b || b > 1000000)
+                    throw vp::ParseError("K");
+                out += " K " + std::to_string(smp->sampleStepCount(a, b));
+            }
+            else if (w == "R")
+            {
+                unsigned long s2 = vp::needN(t, i);
+                smp = cs->allocControlSampler();
+                reseedSampler(smp.get(), s2);
+            }
+            else
+                throw vp::ParseError("sampler op");
+        }
+    }
+    catch (...)
+    {
+        cs->freeControl(c);
+        cs->freeControl(prev);
+        throw;
+    }
+    cs->freeControl(c);
+    cs->freeControl(prev);
+    return out;
+}
+
+// `dsampler SYS ENV k=<n> lseed=<n> ops OP*`: ONE SimpleDirectedControlSampler (k control samples) kept across reconfigurations
+// of the control space and the space information.
+//   OP ::= B <lo0> <lo1> <hi0> <hi1> | M <min> <max> | D <dt:bits> | R <lseed> (new directed sampler) | T <src reals> <dest reals>
+// Output per T: `T <control*2> <steps> <reached state>` (sampleTo with the previous control = the last chosen one).
+static std::string opDSampler(const Toks &t)
+{
+    size_t i = 1;
+    Sys sys;
+    sys.parse(t, i);
+    if (sys.kind == "ode")
+        throw vp::ParseError("no ode");
+    vp::Env env;
+    env.parse(t, i);
+    if (env.pdim != 2)
+        throw vp::ParseError("pdim");
+    unsigned k = needKV(t, i, "k");
+    unsigned long lseed = needKV(t, i, "lseed");
+    expect(t, i, "ops");
+    if (k < 1 || k > 20)
+        throw vp::ParseError("k");
+    std::shared_ptr<SysPropagator> prop;
+    auto si = makeSI(sys, prop);
+    si->setStateValidityChecker(std::make_shared<EnvValidity>(si, env));
+    const bool disc = sys.disc;
+    sys.anyspace()->setControlSamplerAllocator([disc](const oc::ControlSpace *sp) -> oc::ControlSamplerPtr {
+        if (disc)
+            return std::make_shared<DiscSamplerX>(sp);
+        return std::make_shared<RealSamplerX>(sp);
+    });
+    si->setup();
+    auto dsm = std::make_shared<SimpleDirX>(si.get(), k);
+    dsm->reseed(lseed);
+    ob::State *src = si->allocState(), *dst = si->allocState();
+    oc::Control *c = si->allocControl(), *prev = si->allocControl();
+    si->nullControl(prev);
+    std::string out = "dsampler";
+    unsigned nops = 0;
+    try
+    {
+        while (i < t.size())
+        {
+            if (++nops > 2000)
+                throw vp::ParseError("too many ops");
+            const std::string w = t[i++];
+            if (w == "B")
+            {
+                double v[4];
+                for (double &x : v)
+                    x = vp::needF(t, i);
+                if (!(v[0] <= v[2]) || !(v[1] <= v[3]) || (disc && (v[0] != std::floor(v[0]) || v[2] != std::floor(v[2]) || fabs(v[0]) > 1e6 || fabs(v[2]) > 1e6)))
+                    throw vp::ParseError("B");
+                sys.setCBounds(v[0], v[1], v[2], v[3]);
+            }
+            else if (w == "M")
+            {
+                unsigned a = vp::needN(t, i), b = vp::needN(t, i);
+                if (a < 1 || a > b || b > 1000)
+                    throw vp::ParseError("M");
+                si->setMinMaxControlDuration(a, b);
+            }
+            else if (w == "D")
+            {
+                double d = vp::needF(t, i);
+                if (!(d > 1e-9) || !(d < 1e3))
+                    throw vp::ParseError("D");
+                si->setPropagationStepSize(d);
+            }
+            else if (w == "R")
+            {
+                unsigned long s2 = vp::needN(t, i);
+                dsm = std::make_shared<SimpleDirX>(si.get(), k);
+                dsm->reseed(s2);
+            }
+            else if (w == "T")
+            {
+                sys.space->copyFromReals(src, needReals(t, i, sys.nreals()));
+                sys.space->copyFromReals(dst, needReals(t, i, sys.nreals()));
+                unsigned r = dsm->sampleTo(c, prev, src, dst);
+                si->copyControl(prev, c);
+                out += " T " + showCt(c) + " " + std::to_string(r) + " " + showSt(sys, dst);
+            }
+            else
+                throw vp::ParseError("dsampler op");
+        }
+    }
+    catch (...)
+    {
+        si->freeState(src);
+        si->freeState(dst);
+        si->freeControl(c);
+        si->freeControl(prev);
+        throw;
+    }
+    si->freeState(src);
+    si->freeState(dst);
+    si->freeControl(c);
+    si->freeControl(prev);
+    return out;
+}
+
+// ------------------------------------------------------------------------------------------ re-entrancy
+// `nest SYS ENV hook=<v|p> at=<k> CALL CALL` with CALL ::= (pwv | prop) FORM <steps> st <reals> ct <reals>: the first CALL runs
+// on a SpaceInformation whose validity checker (hook=v) / propagator (hook=p) performs, at its k-th top-level invocation
+// (0-based), the COMPLETE second CALL on the same SpaceInformation.  Output: `<outer result> ## <inner result | not-run>`, each
+// formatted like a pwv/prop line without counters; both must be what each call gives alone.
+struct NestCall
+{
+    bool whileValid = true;
+    Form f;
+    long long steps = 0;
+    std::vector<double> st, ct;
+    void parse(const Sys &sys, const Toks &t, size_t &i)
+    {
+        if (i >= t.size() || (t[i] != "pwv" && t[i] != "prop"))
+            throw vp::ParseError("call");
+        whileValid = t[i++] == "pwv";
+        f.parse(t, i);
+        steps = vp::needI(t, i);
+        if (steps > 10000 || steps < -10000)
+            throw vp::ParseError("steps");
+        expect(t, i, "st");
+        st = needReals(t, i, sys.nreals());
+        expect(t, i, "ct");
+        ct = needReals(t, i, 2);
+    }
+    std::string run(const Sys &sys, const oc::SpaceInformation &si) const
+    {
+        ob::State *state = si.allocState();
+        sys.space->copyFromReals(state, st);
+        oc::Control *ctl = si.allocControl();
+        ctlSet(ctl, ct[0], ct[1]);
+        std::string out;
+        unsigned r = 0;
+        if (f.kind == "single" || f.kind == "alias")
+        {
+            ob::State *result = f.kind == "alias" ? state : si.allocState();
+            if (f.kind == "single")
+            {
+                std::vector<double> z(sys.nreals(), 555.0);
+                sys.space->copyFromReals(result, z);
+            }
+            if (whileValid)
+                r = si.propagateWhileValid(state, ctl, (int)steps, result);
+            else
+                si.propagate(state, ctl, (int)steps, result);
+            out = (whileValid ? "r=" + std::to_string(r) + " " : std::string()) + "res=" + showSt(sys, result) + " vec=-";
+            if (result != state)
+                si.freeState(result);
+        }
+        else
+        {
+            std::vector<ob::State *> v;
+            if (!f.alloc)
+                presizeVec(sys, si, v, f.presize);
+            if (whileValid)
+                r = si.propagateWhileValid(state, ctl, (int)steps, v, f.alloc);
+            else
+                si.propagate(state, ctl, (int)steps, v, f.alloc);
+            out = (whileValid ? "r=" + std::to_string(r) + " " : std::string()) + "res=- " + showVec(sys, v);
+            for (auto *p : v)
+                if (p)
+                    si.freeState(p);
+        }
+        si.freeState(state);
+        si.freeControl(ctl);
+        return out;
+    }
+};
+
+class HookValidity : public EnvValidity
+{
+public:
+    using EnvValidity::EnvValidity;
+    bool isValid(const ob::State *s) const override
+    {
+        // the nested call runs FIRST, then the state handed in is judged: a non-re-entrant caller's buffer is read after the
+        // nested call wrote to it
+        if (hook)
+            hook();
+        return EnvValidity::isValid(s);
+    }
+    std::function<void()> hook;
+};
+
+static std::string opNest(const Toks &t)
+{
+    size_t i = 1;
+    Sys sys;
+    sys.parse(t, i);
+    if (sys.kind == "ode")
+        throw vp::ParseError("no ode");
+    vp::Env env;
+    env.parse(t, i);
+    if (env.pdim != 2)
+        throw vp::ParseError("pdim");
+    if (i >= t.size() || (t[i] != "hook=v" && t[i] != "hook=p"))
+        throw vp::ParseError("hook");
+    const bool hookV = t[i++] == "hook=v";
+    unsigned long at = needKV(t, i, "at");
+    NestCall outer, inner;
+    outer.parse(sys, t, i);
+    inner.parse(sys, t, i);
+    if (i != t.size())
+        throw vp::ParseError("trailing");
+    std::shared_ptr<SysPropagator> prop;
+    auto si = makeSI(sys, prop);
+    auto val = std::make_shared<HookValidity>(si, env);
+    si->setStateValidityChecker(val);
+    si->setup();
+    unsigned long count = 0;
+    int depth = 0;
+    std::string innerOut = "not-run";
+    auto hook = [&]() {
+        if (depth > 0)
+            return;
+        if (count++ != at)
+            return;
+        ++depth;
+        innerOut = inner.run(sys, *si);
+        --depth;
+    };
+    if (hookV)
+        val->hook = hook;
+    else
+        prop->hook = hook;
+    std::string outerOut = outer.run(sys, *si);
+    val->hook = nullptr;
+    prop->hook = nullptr;
+    return outerOut + " ## " + innerOut;
 }
 
 int main()
@@ -1928,6 +2517,12 @@ int main()
             }
             else if (t[0] == "stepcount")
                 std::cout << opStepCount(t) << "\n";
+            else if (t[0] == "sampler")
+                std::cout << opSampler(t) << "\n";
+            else if (t[0] == "dsampler")
+                std::cout << opDSampler(t) << "\n";
+            else if (t[0] == "nest")
+                std::cout << opNest(t) << "\n";
             else if ((t[0] == "rrt" || t[0] == "plan" || t[0] == "sst" || t[0] == "est" || t[0] == "kpiece" || t[0] == "pdst" || t[0] == "pmisc" || t[0] == "hist") && planned)
                 std::cout << "bad-op\n";  // the global RNG seed can be set once per process
             else if (t[0] == "rrt")
